@@ -77,6 +77,12 @@ TraceCall ==
                     ELSE UNCHANGED <<env, hist>>
    /\ UNCHANGED prog
 
+(* one merged cross-configuration event (C08): the same call in every configuration and under constant evaluation *)
+TraceX ==
+   /\ IsKind("xcfg")
+   /\ l' = l + 1 /\ UNCHANGED <<env, hist, prog, prev>>
+   /\ st' = [Account(st, JudgeX(Prop, XEvent(Line)), TRUE, "nolow") EXCEPT !.calls = @ + 1]
+
 TraceBegin ==
    /\ IsKind("begin")
    /\ l' = l + 1 /\ prog' = Line /\ env' = [i \in 1..NReg |-> Z0] /\ hist' = <<>>
@@ -98,7 +104,7 @@ TraceEof ==
    /\ JsonSerialize(OutFile, [st EXCEPT !.cfg = st.cfg])
    /\ UNCHANGED <<env, hist, prog, prev, st>>
 
-Next == TraceCfg \/ TraceCall \/ TraceBegin \/ TraceEnd \/ TraceEof
+Next == TraceCfg \/ TraceCall \/ TraceX \/ TraceBegin \/ TraceEnd \/ TraceEof
 Spec == Init /\ [][Next]_vars
 
 (* the whole trace was consumed: one state per line plus the initial one *)
